@@ -1,15 +1,20 @@
-import ShmVerif.Proof.LBRead
+import ShmVerif.Proof.LBWrite
 /-!
   C06 — a stream is a faithful byte pipe whatever the write and read granularity.
 
-  PARTIAL proof (reader half). Proved here, for every slice configuration, every position of slice boundaries (including
+  PARTIAL proof (writer half and reader half; the transport between them is not proved). Proved here, for every slice configuration, every position of slice boundaries (including
   empty slices in the chain), every mix of shared-memory and heap slices and every sequence of sizes:
     * `c06_reader_refines_bytequeue` : any sequence of ReadBytes / Peek / Discard calls (each asking for at most what is
       buffered) returns exactly what `take`/`drop` on the buffered byte sequence return; Peek consumes nothing; `Len` decreases
       by exactly the bytes consumed.
-  NOT yet proved (covered by the lock-step correspondence and the byte-pipe monitor on the real streams only): the writer
-  half (WriteBytes / Reserve / WriteByte compose the bytes in order), `done`/`Flush`/`readBufferSlice`/`moveTo` carrying the
-  composed bytes to the peer's buffered sequence on both transports, ReadByte / ReadString / Read.
+    * `c06_writer_refines_bytequeue` : any sequence of WriteBytes / WriteByte calls of any sizes, on any well-formed
+      allocator state (any size classes, any free lists, exhausted or not, heap fall-back): no call panics, the buffered
+      byte sequence (the same `content` the reader half consumes) grows by exactly the written bytes, in order, `Len` by
+      their number; slices of other buffers and free slots are never written (`Proof/LBWrite`: allocator invariant
+      `Mem.WF`, established by `create_wf` for the state createBufferManager builds).
+  NOT yet proved (covered by the lock-step correspondence and the byte-pipe monitor on the real streams only): Reserve,
+  `done`/`Flush`/`readBufferSlice`/`moveTo` carrying the composed bytes to the peer's buffered sequence on both
+  transports, ReadByte / ReadString / Read.
 -/
 namespace Props.C06
 open LB List
@@ -103,5 +108,70 @@ example :
     let l : LBuf := { sl := [{ slot := some 0, cap := 4, wi := 4 }, { heap := [], cap := 0 }, { heap := [5, 6, 7], cap := 3, wi := 3 }], len := 7 }
     (implRun m l [.peek 6, .readBytes 3, .discard 2, .readBytes 2]).map (·.2.2) = some [[1, 2, 3, 4, 5, 6], [1, 2, 3], [], [6, 7]] := by
   decide
+
+/-! ### the writer half -/
+
+inductive WriteOp where
+  | bytes (d : List Nat)     -- BufferWriter.WriteBytes / WriteString
+  | byte (b : Nat)           -- BufferWriter.WriteByte
+  deriving DecidableEq, Repr
+
+/-- the specification: the written bytes, in call order -/
+def wspec : List WriteOp → List Nat
+  | [] => []
+  | .bytes d :: r => d ++ wspec r
+  | .byte b :: r => b :: wspec r
+
+/-- the implementation model: linkedBuffer writer operations over shared memory `m` (allocating slices of any size class,
+    spilling to heap slices when the memory is exhausted) -/
+def wimpl (m : Mem) (l : LBuf) : List WriteOp → Option (Mem × LBuf)
+  | [] => some (m, l)
+  | .bytes d :: r => match l.writeBytes m d with | none => none | some (m1, l1) => wimpl m1 l1 r
+  | .byte b :: r => match l.writeByte m b with | none => none | some (m1, l1) => wimpl m1 l1 r
+
+/-- Any sequence of WriteBytes / WriteByte calls, with any sizes, on any well-formed allocator state (any number of size
+    classes, any free lists, exhausted or not): no call panics, and the buffered byte sequence (the same `content` the
+    reader half consumes) grows by exactly the written bytes, in order; `Len` grows by their number. -/
+theorem c06_writer_refines_bytequeue (ops : List WriteOp) : ∀ (m : Mem) (l : LBuf), m.WF → WBuf m l →
+    ∃ m' l', wimpl m l ops = some (m', l') ∧ content m' l'.sl = content m l.sl ++ wspec ops ∧
+      l'.len = l.len + (wspec ops).length ∧ m'.WF ∧ WBuf m' l' := by
+  induction ops with
+  | nil => intro m l hw hb; exact ⟨m, l, rfl, by simp [wspec], by simp [wspec], hw, hb⟩
+  | cons op r ih =>
+    intro m l hw hb
+    cases op with
+    | bytes d =>
+      by_cases hd : d = []
+      · subst hd
+        have e : l.writeBytes m [] = some (m, l) := by unfold LBuf.writeBytes; simp
+        obtain ⟨m', l', e', hc, hl, hw', hb'⟩ := ih m l hw hb
+        exact ⟨m', l', by simp only [wimpl, e, e'], by simpa [wspec] using hc, by simpa [wspec] using hl, hw', hb'⟩
+      · obtain ⟨m1, l1, e1, hw1, hb1, hc1, hl1⟩ := writeBytes_spec m l d hw hb hd
+        obtain ⟨m', l', e', hc, hl, hw', hb'⟩ := ih m1 l1 hw1 hb1
+        refine ⟨m', l', by simp only [wimpl, e1, e'], ?_, ?_, hw', hb'⟩
+        · rw [hc, hc1]; simp [wspec, append_assoc]
+        · rw [hl, hl1]; simp [wspec]; omega
+    | byte b =>
+      obtain ⟨m1, l1, e1, hw1, hb1, hc1, hl1⟩ := writeByte_spec m l b hw hb
+      obtain ⟨m', l', e', hc, hl, hw', hb'⟩ := ih m1 l1 hw1 hb1
+      refine ⟨m', l', by simp only [wimpl, e1, e'], ?_, ?_, hw', hb'⟩
+      · rw [hc, hc1]; simp [wspec, append_assoc]
+      · rw [hl, hl1]; simp [wspec]; omega
+
+-- non-vacuity: two size classes (4-byte and 8-byte slices), writes that cross slice boundaries, exhaust the shared
+-- memory and spill into a heap slice; the composed bytes are then read back across the same boundaries
+example :
+    let m := Mem.create [(4, 3), (8, 2)]
+    (wimpl m {} [.bytes [1, 2, 3], .byte 4, .bytes [5, 6, 7, 8, 9, 10, 11, 12, 13, 14, 15, 16, 17]]).map
+      (fun (m', l') => (content m' l'.sl, l'.len, l'.fromShm, (l'.readBytes m' 17).map (·.2.2))) =
+    some ([1, 2, 3, 4, 5, 6, 7, 8, 9, 10, 11, 12, 13, 14, 15, 16, 17], 17, false,
+          some [1, 2, 3, 4, 5, 6, 7, 8, 9, 10, 11, 12, 13, 14, 15, 16, 17]) := by
+  decide
+
+/-- the initial state is covered: whatever classes createBufferManager lays out (positive slice sizes), the memory is well
+    formed and an empty send buffer is a writer buffer -/
+theorem c06_writer_initial (classes : List (Nat × Nat)) (hpos : ∀ c ∈ classes, 0 < c.1) :
+    (Mem.create classes).WF ∧ WBuf (Mem.create classes) {} :=
+  ⟨create_wf classes hpos, Or.inl ⟨rfl, rfl⟩⟩
 
 end Props.C06
